@@ -272,7 +272,10 @@ def rand_spec(rng, depth):
     if k < 0.5:
         return ("list", rand_spec(rng, depth - 1), rand_cons(rng, "list"))
     if k < 0.56:
-        return ("set", rand_spec(rng, 0))
+        if rng.random() < 0.5:
+            return ("set", rand_spec(rng, 0))
+        return ("setc", rng.choice(["set", "frozenset"]), rand_spec(rng, 0),
+                rng.choice([{"min_length": 2}, {"length": 2}, {"max_length": 1}, {"min_length": 1}, {"length": 1}]))
     if k < 0.64:
         return ("tuple", [rand_spec(rng, depth - 1) for _ in range(rng.randint(1, 3))])
     if k < 0.69:
@@ -323,6 +326,8 @@ def build_spec(spec):
         return Rule.annotate(list, inner, constraints=cons)
     if k == "set":
         return Rule.annotate(set, build_spec(spec[1]))
+    if k == "setc":
+        return Rule.annotate(set if spec[1] == "set" else frozenset, build_spec(spec[2]), constraints=dict(spec[3]))
     if k == "tuple":
         return Rule.annotate(tuple, *[build_spec(s) for s in spec[1]])
     if k == "vtuple":
@@ -370,6 +375,19 @@ def valid_value(rng, spec, depth=3):
             return set(xs) if rng.random() < 0.5 else xs
         except TypeError:
             return xs
+    if k == "setc":
+        # elements that are distinct before conversion and may collide after it
+        base = valid_value(rng, spec[2], depth - 1)
+        variants = [base]
+        for f in (str, float, lambda x: int(x), lambda x: Decimal(str(x)), lambda x: str(x).encode(), lambda x: "0" + str(x)):
+            try:
+                variants.append(f(base))
+            except Exception:
+                pass
+        xs = [rng.choice(variants) for _ in range(rng.randint(1, 3))]
+        if rng.random() < 0.4:
+            xs.append(valid_value(rng, spec[2], depth - 1))
+        return xs if rng.random() < 0.7 else tuple(xs)
     if k == "tuple":
         xs = [valid_value(rng, s, depth - 1) for s in spec[1]]
         r = rng.random()
